@@ -522,3 +522,542 @@ Proof.
   revert H3. apply all2_bwd. intros x y Hx Hy. apply sort_In in Hx. apply sort_In in Hy.
   apply module_deq_bwd; [exact Hctx | apply (deq_ok_mod a Ha x Hx) | apply (deq_ok_mod b Hb y Hy)].
 Qed.
+
+(* ------------------------------------------------------------------ *)
+(* norm keeps the blocks / proxies / symbols of an IR (as sets)          *)
+(* ------------------------------------------------------------------ *)
+
+Lemma in_flat_map_sort_map {A B} (f : A -> list B) (g : A -> A) (leb : A -> A -> bool) (x : B) l :
+  (forall y, In x (f (g y)) <-> In x (f y)) ->
+  (In x (flat_map f (sort leb (map g l))) <-> In x (flat_map f l)).
+Proof.
+  intros H. rewrite !in_flat_map. split.
+  - intros [y [Hy Hx]]. apply sort_In in Hy. apply in_map_iff in Hy as [z [E Hz]]. subst y.
+    exists z. split; [exact Hz | apply H, Hx].
+  - intros [y [Hy Hx]]. exists (g y). split; [apply sort_In, in_map, Hy | apply H, Hx].
+Qed.
+
+Lemma in_blocks_norm_bi x b : In x (ci_blocks (norm_bi b)) <-> In x (ci_blocks b).
+Proof. unfold norm_bi. cbn [ci_blocks]. apply sort_In. Qed.
+
+Lemma in_blocks_norm_section x s :
+  In x (flat_map ci_blocks (cs_bis (norm_section s))) <-> In x (flat_map ci_blocks (cs_bis s)).
+Proof.
+  unfold norm_section. cbn [cs_bis]. apply in_flat_map_sort_map. intros y. apply in_blocks_norm_bi.
+Qed.
+
+Lemma in_blocks_norm_module x m : In x (module_blocks (norm_module m)) <-> In x (module_blocks m).
+Proof.
+  unfold module_blocks, norm_module. cbn [cm_sections].
+  apply (in_flat_map_sort_map (fun s => flat_map ci_blocks (cs_bis s)) norm_section).
+  intros y. apply in_blocks_norm_section.
+Qed.
+
+Lemma in_blocks_norm x c : In x (all_blocks (norm c)) <-> In x (all_blocks c).
+Proof.
+  unfold all_blocks, norm. cbn [cr_modules]. apply in_flat_map_sort_map.
+  intros y. apply in_blocks_norm_module.
+Qed.
+
+Lemma in_symbols_norm x c : In x (all_symbols (norm c)) <-> In x (all_symbols c).
+Proof.
+  unfold all_symbols, norm. cbn [cr_modules]. apply in_flat_map_sort_map.
+  intros y. unfold norm_module. cbn [cm_symbols]. apply sort_In.
+Qed.
+
+Lemma in_proxies_norm x c : In x (all_proxies (norm c)) <-> In x (all_proxies c).
+Proof.
+  unfold all_proxies, norm. cbn [cr_modules]. apply in_flat_map_sort_map.
+  intros y. unfold norm_module. cbn [cm_proxies]. apply sort_In.
+Qed.
+
+(* ------------------------------------------------------------------ *)
+(* unique UUIDs                                                         *)
+(* ------------------------------------------------------------------ *)
+
+Lemma block_uuids_subseq c : subseq (map cb_uuid (all_blocks c)) (all_uuids c).
+Proof.
+  unfold all_blocks, all_uuids. apply sub_skip. rewrite map_flat_map'. apply subseq_flat_map.
+  intros m _. unfold module_blocks, all_uuids_module. apply sub_skip. apply subseq_app_r. apply subseq_app_l.
+  rewrite map_flat_map'. apply subseq_flat_map. intros s _. apply sub_skip.
+  rewrite map_flat_map'. apply subseq_flat_map. intros b _. apply sub_skip. apply subseq_refl.
+Qed.
+
+Lemma symbol_uuids_subseq c : subseq (map cy_uuid (all_symbols c)) (all_uuids c).
+Proof.
+  unfold all_symbols, all_uuids. apply sub_skip. rewrite map_flat_map'. apply subseq_flat_map.
+  intros m _. unfold all_uuids_module. apply sub_skip. apply subseq_app_r. apply subseq_app_r. apply subseq_refl.
+Qed.
+
+Lemma NoDup_block_uuids c : NoDup (all_uuids c) -> NoDup (map cb_uuid (all_blocks c)).
+Proof. apply subseq_NoDup, block_uuids_subseq. Qed.
+
+Lemma NoDup_symbol_uuids c : NoDup (all_uuids c) -> NoDup (map cy_uuid (all_symbols c)).
+Proof. apply subseq_NoDup, symbol_uuids_subseq. Qed.
+
+(* ------------------------------------------------------------------ *)
+(* references agree when the normal forms agree                          *)
+(* ------------------------------------------------------------------ *)
+
+Lemma ctx_refs a b :
+  (forall x, In x (all_blocks a) <-> In x (all_blocks b)) ->
+  (forall p, In p (all_proxies a) <-> In p (all_proxies b)) ->
+  NoDup (map cb_uuid (all_blocks b)) ->
+  forall r, ref_ok a r = true -> rnode_deq (find_ref a r) (find_ref b r) = true.
+Proof.
+  intros HB HP N r Hr. unfold ref_ok in Hr.
+  destruct (find_ref a r) as [[x|p]|] eqn:Ea; [| |discriminate].
+  - apply find_ref_block in Ea as [Hx Eu]. subst r.
+    assert (E : find_ref b (cb_uuid x) = Some (RBlock x)).
+    { rewrite find_ref_unfold. rewrite (find_key_unique cb_uuid _ x N); [reflexivity | apply HB, Hx]. }
+    rewrite E. cbn [rnode_deq]. apply block_deq_refl.
+  - apply find_ref_proxy in Ea as [Ep [Hnb Hp]]. subst p.
+    assert (E : find_ref b r = Some (RProxy r)).
+    { rewrite find_ref_unfold.
+      destruct (find (fun k => cb_uuid k =? r) (all_blocks b)) as [k|] eqn:Ek.
+      - apply find_key_some in Ek as [H1 H2]. exfalso. apply (Hnb k); [apply HB, H1 | exact H2].
+      - rewrite (proj2 (existsb_zeqb_In r _) (proj1 (HP r) Hp)). reflexivity. }
+    rewrite E. cbn [rnode_deq]. apply Z.eqb_refl.
+Qed.
+
+Lemma ctx_syms a b :
+  (forall r, ref_ok a r = true -> rnode_deq (find_ref a r) (find_ref b r) = true) ->
+  (forall y, In y (all_symbols a) <-> In y (all_symbols b)) ->
+  NoDup (map cy_uuid (all_symbols b)) ->
+  (forall y r, In y (all_symbols a) -> cy_payload y = CPRef r -> ref_ok a r = true) ->
+  forall s, sym_ok a s = true -> osym_deq a b s s = true.
+Proof.
+  intros HR HS N Hres s Hs. unfold sym_ok in Hs. unfold osym_deq.
+  rewrite find_symbol_unfold in Hs. rewrite !find_symbol_unfold.
+  destruct (find (fun y => cy_uuid y =? s) (all_symbols a)) as [y|] eqn:Ea; [|discriminate].
+  apply find_key_some in Ea as [Hy Eu]. subst s.
+  rewrite (find_key_unique cy_uuid _ y N) by (apply HS, Hy).
+  apply symbol_deq_refl. intros r Er. apply HR. apply (Hres y r Hy Er).
+Qed.
+
+Lemma deq_ok_symrefs c : deq_ok c = true ->
+  forall y r, In y (all_symbols c) -> cy_payload y = CPRef r -> ref_ok c r = true.
+Proof.
+  intros H y r Hy E. unfold all_symbols in Hy. apply in_flat_map in Hy as [m [Hm Hy]].
+  apply (module_deq_ok_sym c m (deq_ok_mod c H m Hm) y r Hy E).
+Qed.
+
+Lemma ctx_ok_of_norm a b : deq_ok a = true -> deq_ok b = true -> norm a = norm b -> ctx_ok a b.
+Proof.
+  intros Ha Hb H.
+  assert (HB : forall x, In x (all_blocks a) <-> In x (all_blocks b))
+    by (intros x; rewrite <- (in_blocks_norm x a), <- (in_blocks_norm x b), H; tauto).
+  assert (HP : forall x, In x (all_proxies a) <-> In x (all_proxies b))
+    by (intros x; rewrite <- (in_proxies_norm x a), <- (in_proxies_norm x b), H; tauto).
+  assert (HS : forall x, In x (all_symbols a) <-> In x (all_symbols b))
+    by (intros x; rewrite <- (in_symbols_norm x a), <- (in_symbols_norm x b), H; tauto).
+  pose proof (deq_ok_uuids b Hb) as N.
+  assert (HR : forall r, ref_ok a r = true -> rnode_deq (find_ref a r) (find_ref b r) = true)
+    by (apply ctx_refs; [exact HB | exact HP | apply NoDup_block_uuids, N]).
+  split; [exact HR|].
+  apply ctx_syms; [exact HR | exact HS | apply NoDup_symbol_uuids, N | apply deq_ok_symrefs, Ha].
+Qed.
+
+(* ------------------------------------------------------------------ *)
+(* main theorem and corollaries                                         *)
+(* ------------------------------------------------------------------ *)
+
+Theorem deep_eq_iff : forall a b, deq_ok a = true -> deq_ok b = true -> (ir_deq a b = true <-> norm a = norm b).
+Proof.
+  intros a b Ha Hb. split.
+  - apply ir_deq_fwd; assumption.
+  - intros H. apply ir_deq_bwd; [apply ctx_ok_of_norm; assumption | exact Ha | exact Hb | exact H].
+Qed.
+
+Theorem deep_eq_refl : forall a, deq_ok a = true -> ir_deq a a = true.
+Proof. intros a Ha. apply deep_eq_iff; [exact Ha | exact Ha | reflexivity]. Qed.
+
+Theorem deep_eq_sym : forall a b, deq_ok a = true -> deq_ok b = true -> ir_deq a b = ir_deq b a.
+Proof.
+  intros a b Ha Hb.
+  destruct (ir_deq a b) eqn:E1; destruct (ir_deq b a) eqn:E2; try reflexivity.
+  - apply (deep_eq_iff a b Ha Hb) in E1. symmetry in E1. apply (deep_eq_iff b a Hb Ha) in E1. congruence.
+  - apply (deep_eq_iff b a Hb Ha) in E2. symmetry in E2. apply (deep_eq_iff a b Ha Hb) in E2. congruence.
+Qed.
+
+Theorem deep_eq_order_insensitive : forall a a', deq_ok a = true -> deq_ok a' = true -> norm a = norm a' ->
+  forall b, deq_ok b = true -> ir_deq a b = ir_deq a' b.
+Proof.
+  intros a a' Ha Ha' Hn b Hb.
+  destruct (ir_deq a b) eqn:E1; destruct (ir_deq a' b) eqn:E2; try reflexivity.
+  - apply (deep_eq_iff a b Ha Hb) in E1. rewrite Hn in E1. apply (deep_eq_iff a' b Ha' Hb) in E1. congruence.
+  - apply (deep_eq_iff a' b Ha' Hb) in E2. rewrite <- Hn in E2. apply (deep_eq_iff a b Ha Hb) in E2. congruence.
+Qed.
+
+Theorem deep_eq_single_field : forall a b, deq_ok a = true -> deq_ok b = true -> norm a <> norm b -> ir_deq a b = false.
+Proof.
+  intros a b Ha Hb Hn. destruct (ir_deq a b) eqn:E; [|reflexivity].
+  exfalso. apply Hn. apply (deep_eq_iff a b Ha Hb), E.
+Qed.
+
+Theorem aux_values_ignored : forall a aux', map fst aux' = map fst (cr_aux a) ->
+  norm {| cr_uuid := cr_uuid a; cr_version := cr_version a; cr_modules := cr_modules a; cr_edges := cr_edges a;
+          cr_aux := aux' |} = norm a.
+Proof.
+  intros a aux' H. unfold norm, norm_aux. cbn [cr_uuid cr_version cr_modules cr_edges cr_aux].
+  rewrite H. reflexivity.
+Qed.
+
+(* ------------------------------------------------------------------ *)
+(* Proto.wf implies the premise (up to duplicate-free AuxData keys, which wf does not state)  *)
+(* ------------------------------------------------------------------ *)
+
+Definition aux_keys_ok (c : cIR) : bool :=
+  nodup_keys (map fst (cr_aux c)) && forallb (fun m => nodup_keys (map fst (cm_aux m))) (cr_modules c).
+
+Lemma modules_ok_each : forall ms codes blocks syms, modules_ok codes blocks syms ms = true ->
+  forall m, In m ms -> exists codes0 blocks0 syms0,
+    module_ok codes0 blocks0 syms0 m = true
+    /\ (forall x, In x (codes0 ++ code_uuids m) -> In x (codes ++ flat_map code_uuids ms))
+    /\ (forall x, In x (blocks0 ++ block_uuids m) -> In x (blocks ++ flat_map block_uuids ms))
+    /\ (forall x, In x (syms0 ++ map cy_uuid (cm_symbols m)) ->
+                  In x (syms ++ flat_map (fun m' => map cy_uuid (cm_symbols m')) ms)).
+Proof.
+  induction ms as [|m0 ms IH]; intros codes blocks syms H m Hm; [destruct Hm|].
+  cbn [modules_ok] in H. apply andb_true_iff in H as [H1 H2].
+  destruct Hm as [Hm|Hm].
+  - subst m0. exists codes, blocks, syms. split; [exact H1|].
+    cbn [flat_map]. repeat split; intros x; rewrite !in_app_iff; tauto.
+  - destruct (IH _ _ _ H2 m Hm) as (c0 & b0 & s0 & K1 & K2 & K3 & K4).
+    exists c0, b0, s0. split; [exact K1|].
+    cbn [flat_map]. repeat split; intros x Hx.
+    + apply K2 in Hx. rewrite !in_app_iff in *. tauto.
+    + apply K3 in Hx. rewrite !in_app_iff in *. tauto.
+    + apply K4 in Hx. rewrite !in_app_iff in *. tauto.
+Qed.
+
+Lemma in_code_uuids m x : In x (code_uuids m) -> exists k, In k (module_blocks m) /\ cb_uuid k = x.
+Proof.
+  unfold code_uuids. intros H. apply in_flat_map in H as [k [Hk Hx]]. exists k. split; [exact Hk|].
+  destruct (cb_code k); [|destruct Hx]. destruct Hx as [Hx|[]]. exact Hx.
+Qed.
+
+Lemma in_all_blocks c m k : In m (cr_modules c) -> In k (module_blocks m) -> In k (all_blocks c).
+Proof. intros Hm Hk. unfold all_blocks. apply in_flat_map. exists m. auto. Qed.
+
+Lemma in_all_proxies c m p : In m (cr_modules c) -> In p (cm_proxies m) -> In p (all_proxies c).
+Proof. intros Hm Hk. unfold all_proxies. apply in_flat_map. exists m. auto. Qed.
+
+Lemma code_uuids_ref c x : In x (flat_map code_uuids (cr_modules c)) -> ref_ok c x = true.
+Proof.
+  intros H. apply in_flat_map in H as [m [Hm Hx]]. apply in_code_uuids in Hx as [k [Hk E]]. subst x.
+  apply ref_ok_block. eapply in_all_blocks; eassumption.
+Qed.
+
+Lemma block_uuids_ref c x : In x (flat_map block_uuids (cr_modules c)) -> ref_ok c x = true.
+Proof.
+  intros H. apply in_flat_map in H as [m [Hm Hx]]. unfold block_uuids in Hx. apply in_app_iff in Hx as [Hx|Hx].
+  - apply in_map_iff in Hx as [k [E Hk]]. subst x. apply ref_ok_block. eapply in_all_blocks; eassumption.
+  - apply ref_ok_proxy. eapply in_all_proxies; eassumption.
+Qed.
+
+Lemma sym_uuids_ok c x : In x (flat_map (fun m => map cy_uuid (cm_symbols m)) (cr_modules c)) -> sym_ok c x = true.
+Proof.
+  intros H. apply in_flat_map in H as [m [Hm Hx]]. apply in_map_iff in Hx as [y [E Hy]]. subst x.
+  apply sym_ok_in. unfold all_symbols. apply in_flat_map. exists m. auto.
+Qed.
+
+Lemma cfg_nodes_ref c x : In x (flat_map module_cfg_nodes (cr_modules c)) -> ref_ok c x = true.
+Proof.
+  intros H. apply in_flat_map in H as [m [Hm Hx]]. unfold module_cfg_nodes in Hx. apply in_app_iff in Hx as [Hx|Hx].
+  - apply in_flat_map in Hx as [s [Hs Hx]]. apply in_flat_map in Hx as [b [Hb Hx]].
+    apply in_flat_map in Hx as [k [Hk Hx]].
+    assert (E : cb_uuid k = x) by (destruct (cb_code k); [destruct Hx as [Hx|[]]; exact Hx | destruct Hx]).
+    subst x. apply ref_ok_block. apply (in_all_blocks c m k Hm).
+    unfold module_blocks. apply in_flat_map. exists s. split; [exact Hs|].
+    apply in_flat_map. exists b. auto.
+  - apply ref_ok_proxy. eapply in_all_proxies; eassumption.
+Qed.
+
+Lemma bi_ok_deq_ok c b : bi_ok b = true ->
+  (forall kv s, In kv (ci_symx b) -> In s (expr_syms (snd kv)) -> sym_ok c s = true) ->
+  bi_deq_ok c b = true.
+Proof.
+  unfold bi_ok, bi_deq_ok. intros H Hs.
+  apply andb_true_iff in H as [H _]. apply andb_true_iff in H as [H H4].
+  apply andb_true_iff in H as [_ H3]. rewrite H4.
+  apply andb_true_iff; split; [apply andb_true_iff; split; [|reflexivity]|].
+  - rewrite forallb_forall in *. intros k Hk. specialize (H3 k Hk). unfold blk_ok.
+    destruct (cb_code k); [reflexivity | exact H3].
+  - rewrite forallb_forall. intros kv Hkv. rewrite forallb_forall. intros s. apply Hs, Hkv.
+Qed.
+
+Lemma module_ok_deq_ok c m codes0 blocks0 syms0 :
+  module_ok codes0 blocks0 syms0 m = true ->
+  (forall x, In x (codes0 ++ code_uuids m) -> ref_ok c x = true) ->
+  (forall x, In x (blocks0 ++ block_uuids m) -> ref_ok c x = true) ->
+  (forall x, In x (syms0 ++ map cy_uuid (cm_symbols m)) -> sym_ok c x = true) ->
+  nodup_keys (map fst (cm_aux m)) = true ->
+  module_deq_ok c m = true.
+Proof.
+  unfold module_ok. cbv zeta. intros H HC HB HS HA.
+  apply andb_true_iff in H as [H H7]. apply andb_true_iff in H as [H H6].
+  apply andb_true_iff in H as [H H5]. apply andb_true_iff in H as [_ H4].
+  rewrite forallb_forall in H4, H6, H7.
+  unfold module_deq_ok. rewrite HA. cbn [andb].
+  apply andb_true_iff; split; [apply andb_true_iff; split|].
+  - apply forallb_forall. intros s Hs. apply forallb_forall. intros b Hb.
+    specialize (H4 s Hs). apply andb_true_iff in H4 as [_ H4]. rewrite forallb_forall in H4.
+    apply bi_ok_deq_ok; [apply H4, Hb|].
+    intros kv y Hkv Hy. apply HS.
+    specialize (H7 s Hs). rewrite forallb_forall in H7. specialize (H7 b Hb).
+    rewrite forallb_forall in H7. specialize (H7 kv Hkv). rewrite forallb_forall in H7.
+    apply existsb_zeqb_In. apply (H7 y Hy).
+  - apply forallb_forall. intros y Hy. specialize (H6 y Hy).
+    destruct (cy_payload y) as [|v|r]; [reflexivity | reflexivity |].
+    apply HB. apply existsb_zeqb_In. exact H6.
+  - destruct (cm_entry m) as [e|]; [|reflexivity]. apply HC. apply existsb_zeqb_In. exact H5.
+Qed.
+
+Lemma wf_deq_ok : forall c, wf c = true -> aux_keys_ok c = true -> deq_ok c = true.
+Proof.
+  intros c H HA. unfold wf in H. cbv zeta in H.
+  apply andb_true_iff in H as [H _]. apply andb_true_iff in H as [H H5].
+  apply andb_true_iff in H as [H H4]. apply andb_true_iff in H as [H _].
+  apply andb_true_iff in H as [_ H2].
+  unfold aux_keys_ok in HA. apply andb_true_iff in HA as [HA1 HA2]. rewrite forallb_forall in HA2.
+  unfold deq_ok. rewrite H2, HA1. cbn [andb].
+  apply andb_true_iff; split.
+  - apply forallb_forall. intros m Hm.
+    destruct (modules_ok_each _ _ _ _ H4 m Hm) as (c0 & b0 & s0 & K1 & K2 & K3 & K4).
+    cbn [app] in K2, K3, K4.
+    apply (module_ok_deq_ok c m c0 b0 s0 K1).
+    + intros x Hx. apply code_uuids_ref, K2, Hx.
+    + intros x Hx. apply block_uuids_ref, K3, Hx.
+    + intros x Hx. apply sym_uuids_ok, K4, Hx.
+    + apply HA2, Hm.
+  - rewrite forallb_forall in *. intros e He. specialize (H5 e He).
+    apply andb_true_iff in H5 as [H5 _]. apply andb_true_iff in H5 as [E1 E2].
+    apply existsb_zeqb_In in E1. apply existsb_zeqb_In in E2.
+    rewrite (cfg_nodes_ref c _ E1), (cfg_nodes_ref c _ E2). reflexivity.
+Qed.
+
+(* per-level statements in the form  X_deq x y = true <-> norm_X x = norm_X y  (the context premise ctx_ok holds
+   whenever norm ca = norm cb, see ctx_ok_of_norm; it is only used from right to left) *)
+Lemma bi_deq_iff ca cb a b : ctx_ok ca cb -> bi_deq_ok ca a = true -> bi_deq_ok cb b = true ->
+  (bi_deq ca cb a b = true <-> norm_bi a = norm_bi b).
+Proof. intros Hc Ha Hb. split; [apply bi_deq_fwd; assumption | apply bi_deq_bwd; assumption]. Qed.
+
+Lemma section_deq_iff ca cb a b : ctx_ok ca cb -> sec_deq_ok ca a = true -> sec_deq_ok cb b = true ->
+  (section_deq ca cb a b = true <-> norm_section a = norm_section b).
+Proof. intros Hc Ha Hb. split; [apply section_deq_fwd; assumption | apply section_deq_bwd; assumption]. Qed.
+
+Lemma module_deq_iff ca cb a b : ctx_ok ca cb -> module_deq_ok ca a = true -> module_deq_ok cb b = true ->
+  (module_deq ca cb a b = true <-> norm_module a = norm_module b).
+Proof. intros Hc Ha Hb. split; [apply module_deq_fwd; assumption | apply module_deq_bwd; assumption]. Qed.
+
+Lemma cfg_deq_iff a b : ctx_ok a b -> deq_ok a = true ->
+  (cfg_deq a b = true <-> sort edge_leb (cr_edges a) = sort edge_leb (cr_edges b)).
+Proof. intros Hc Ha. split; [apply cfg_deq_fwd | apply cfg_deq_bwd; [exact Hc | apply deq_ok_edges, Ha]]. Qed.
+
+(* ------------------------------------------------------------------ *)
+(* examples                                                             *)
+(* ------------------------------------------------------------------ *)
+
+Definition rv {X} (flip : bool) (l : list X) : list X := if flip then rev l else l.
+
+(* one module, two sections, three blocks, a proxy, two symbols, two edges; `flip` reverses every child list;
+   kind/payload/addr/label are the four fields the examples perturb *)
+Definition ex_ir (flip kind : bool) (payload : cPayload) (addr : option Z) (label : option clabel) : cIR :=
+  let bA := {| cb_uuid := 10; cb_code := true; cb_off := 0; cb_size := 4; cb_dm := 0 |} in
+  let bB := {| cb_uuid := 11; cb_code := kind; cb_off := 4; cb_size := 4; cb_dm := 0 |} in
+  let bC := {| cb_uuid := 12; cb_code := true; cb_off := 0; cb_size := 2; cb_dm := 1 |} in
+  let y1 := {| cy_uuid := 20; cy_name := [115]; cy_payload := CPRef 11; cy_at_end := false |} in
+  let y2 := {| cy_uuid := 21; cy_name := [116]; cy_payload := payload; cy_at_end := true |} in
+  let y3 := {| cy_uuid := 22; cy_name := [117]; cy_payload := CPRef 30; cy_at_end := false |} in
+  let i1 := {| ci_uuid := 5; ci_addr := addr; ci_size := 8; ci_contents := [1; 2; 3];
+               ci_blocks := rv flip [bA; bB];
+               ci_symx := rv flip [(0, {| cx_val := CAddrConst 0 20; cx_attrs := rv flip [1; 6] |});
+                                   (4, {| cx_val := CAddrAddr 1 0 20 21; cx_attrs := [] |})] |} in
+  let i2 := {| ci_uuid := 6; ci_addr := Some 64; ci_size := 2; ci_contents := [];
+               ci_blocks := [bC]; ci_symx := [] |} in
+  let s1 := {| cs_uuid := 3; cs_name := [46; 116]; cs_flags := rv flip [1; 3; 4]; cs_bis := [i1] |} in
+  let s2 := {| cs_uuid := 4; cs_name := [46; 100]; cs_flags := [1; 2]; cs_bis := [i2] |} in
+  let m := {| cm_uuid := 2; cm_name := [109]; cm_binary_path := [47]; cm_isa := 3; cm_file_format := 2;
+              cm_byte_order := 2; cm_preferred_addr := 0; cm_rebase_delta := 0; cm_entry := Some 10;
+              cm_proxies := [30]; cm_sections := rv flip [s1; s2]; cm_symbols := rv flip [y1; y2; y3];
+              cm_aux := rv flip [([97], {| a_type := [1]; a_data := [2] |}); ([98], {| a_type := []; a_data := [] |})] |} in
+  {| cr_uuid := 1; cr_version := 4; cr_modules := [m];
+     cr_edges := rv flip [ {| ce_src := 10; ce_dst := 12; ce_label := label |};
+                           {| ce_src := 12; ce_dst := 30; ce_label := Some (1, true, false) |};
+                           {| ce_src := 10; ce_dst := 30; ce_label := Some (0, false, true) |} ];
+     cr_aux := [([99], {| a_type := [3]; a_data := [4] |})] |}.
+
+Definition ex0 : cIR := ex_ir false false CPNone None None.
+
+Example ex0_wf : wf ex0 = true /\ deq_ok ex0 = true.
+Proof. vm_compute. split; reflexivity. Qed.
+
+(* the same content with sections, blocks, symbols, edges (and expressions, flags, attributes, AuxData) listed in the
+   opposite order *)
+Example ex_order : let a := ex0 in let b := ex_ir true false CPNone None None in
+  wf b = true /\ deq_ok b = true /\ ir_deq a b = true /\ ir_deq b a = true.
+Proof. vm_compute. repeat split; reflexivity. Qed.
+
+Example ex_block_kind : let a := ex0 in let b := ex_ir false true CPNone None None in
+  wf b = true /\ deq_ok b = true /\ ir_deq a b = false /\ ir_deq b a = false.
+Proof. vm_compute. repeat split; reflexivity. Qed.
+
+Example ex_symbol_payload : let a := ex0 in let b := ex_ir false false (CPVal 0) None None in
+  wf b = true /\ deq_ok b = true /\ ir_deq a b = false /\ ir_deq b a = false.
+Proof. vm_compute. repeat split; reflexivity. Qed.
+
+Example ex_interval_addr : let a := ex0 in let b := ex_ir false false CPNone (Some 0) None in
+  wf b = true /\ deq_ok b = true /\ ir_deq a b = false /\ ir_deq b a = false.
+Proof. vm_compute. repeat split; reflexivity. Qed.
+
+Example ex_edge_label : let a := ex0 in let b := ex_ir false false CPNone None (Some (0, false, false)) in
+  wf b = true /\ deq_ok b = true /\ ir_deq a b = false /\ ir_deq b a = false.
+Proof. vm_compute. repeat split; reflexivity. Qed.
+
+(* the perturbations also hold after reordering *)
+Example ex_order_and_kind : let a := ex0 in let b := ex_ir true true CPNone None None in
+  ir_deq a b = false /\ ir_deq b a = false.
+Proof. vm_compute. split; reflexivity. Qed.
+
+(* AuxData values are not compared *)
+Example ex_aux_values :
+  let a := ex0 in
+  let b := {| cr_uuid := cr_uuid a; cr_version := cr_version a; cr_modules := cr_modules a; cr_edges := cr_edges a;
+              cr_aux := [([99], {| a_type := [7; 7]; a_data := [] |})] |} in
+  ir_deq a b = true /\ ir_deq b a = true.
+Proof. vm_compute. split; reflexivity. Qed.
+
+(* ------------------------------------------------------------------ *)
+(* the two extra clauses of deq_ok are necessary                        *)
+(* ------------------------------------------------------------------ *)
+
+(* the premise exactly as worded in the task: unique UUIDs, unique expression offsets, every reference resolves *)
+Definition deq_ok_task (c : cIR) : bool :=
+  nodup_z (all_uuids c)
+  && forallb (fun m =>
+       forallb (fun s => forallb (fun b =>
+           nodup_z (map fst (ci_symx b))
+           && forallb (fun kv => forallb (sym_ok c) (expr_syms (snd kv))) (ci_symx b)) (cs_bis s)) (cm_sections m)
+       && forallb (fun y => match cy_payload y with CPRef r => ref_ok c r | _ => true end) (cm_symbols m)
+       && match cm_entry m with Some e => ref_ok c e | None => true end) (cr_modules c)
+  && forallb (fun e => ref_ok c (ce_src e) && ref_ok c (ce_dst e)) (cr_edges c).
+
+Definition ex_data_dm (dm : Z) : cIR :=
+  let k := {| cb_uuid := 10; cb_code := false; cb_off := 0; cb_size := 4; cb_dm := dm |} in
+  let i := {| ci_uuid := 5; ci_addr := None; ci_size := 4; ci_contents := []; ci_blocks := [k]; ci_symx := [] |} in
+  let s := {| cs_uuid := 3; cs_name := []; cs_flags := []; cs_bis := [i] |} in
+  let m := {| cm_uuid := 2; cm_name := []; cm_binary_path := []; cm_isa := 3; cm_file_format := 2;
+              cm_byte_order := 2; cm_preferred_addr := 0; cm_rebase_delta := 0; cm_entry := None;
+              cm_proxies := []; cm_sections := [s]; cm_symbols := []; cm_aux := [] |} in
+  {| cr_uuid := 1; cr_version := 4; cr_modules := [m]; cr_edges := []; cr_aux := [] |}.
+
+(* DataBlock.deep_eq does not look at a decode mode; a content record that carries a non-zero cb_dm on a data block
+   (excluded by Proto.wf and by deq_ok) is deep_eq to the one with 0 but has a different normal form *)
+Lemma deep_eq_iff_refuted_without_dm_clause :
+  exists a b, deq_ok_task a = true /\ deq_ok_task b = true /\ ir_deq a b = true /\ norm a <> norm b.
+Proof.
+  exists (ex_data_dm 0), (ex_data_dm 1). repeat split; try (vm_compute; reflexivity).
+  vm_compute. intros H. discriminate H.
+Qed.
+
+Definition ex_aux_dup (dup : bool) : cIR :=
+  let x := {| a_type := []; a_data := [] |} in
+  {| cr_uuid := 1; cr_version := 4; cr_modules := []; cr_edges := [];
+     cr_aux := if dup then [([97], x); ([97], x)] else [([97], x)] |}.
+
+(* AuxData keys are compared as sets while norm_aux keeps multiplicities: an association list with a repeated key
+   (not a dict; wf does not exclude it, deq_ok does) separates the two sides *)
+Lemma deep_eq_iff_refuted_without_aux_clause :
+  exists a b, deq_ok_task a = true /\ deq_ok_task b = true /\ wf a = true /\ wf b = true
+              /\ ir_deq a b = true /\ norm a <> norm b.
+Proof.
+  exists (ex_aux_dup true), (ex_aux_dup false). repeat split; try (vm_compute; reflexivity).
+  vm_compute. intros H. discriminate H.
+Qed.
+
+(* ------------------------------------------------------------------ *)
+(* norm is canonical: reordering a child list with pairwise distinct keys does not change it       *)
+(* (with deep_eq_order_insensitive: such a reordering is invisible to deep_eq)                      *)
+(* ------------------------------------------------------------------ *)
+
+Theorem norm_modules_order : forall a ms', NoDup (map cm_uuid (cr_modules a)) -> Permutation (cr_modules a) ms' ->
+  norm {| cr_uuid := cr_uuid a; cr_version := cr_version a; cr_modules := ms'; cr_edges := cr_edges a;
+          cr_aux := cr_aux a |} = norm a.
+Proof.
+  intros a ms' N P. unfold norm. cbn [cr_uuid cr_version cr_modules cr_edges cr_aux].
+  rewrite (sort_by_key_canonical cm_uuid (map norm_module (cr_modules a)) (map norm_module ms'));
+    [reflexivity | | apply Permutation_map, P].
+  rewrite map_map. exact N.
+Qed.
+
+Theorem norm_module_sections_order : forall m ss', NoDup (map cs_uuid (cm_sections m)) -> Permutation (cm_sections m) ss' ->
+  norm_module {| cm_uuid := cm_uuid m; cm_name := cm_name m; cm_binary_path := cm_binary_path m; cm_isa := cm_isa m;
+                 cm_file_format := cm_file_format m; cm_byte_order := cm_byte_order m;
+                 cm_preferred_addr := cm_preferred_addr m; cm_rebase_delta := cm_rebase_delta m; cm_entry := cm_entry m;
+                 cm_proxies := cm_proxies m; cm_sections := ss'; cm_symbols := cm_symbols m; cm_aux := cm_aux m |}
+  = norm_module m.
+Proof.
+  intros m ss' N P. unfold norm_module.
+  cbn [cm_uuid cm_name cm_binary_path cm_isa cm_file_format cm_byte_order cm_preferred_addr cm_rebase_delta cm_entry
+       cm_proxies cm_sections cm_symbols cm_aux].
+  rewrite (sort_by_key_canonical cs_uuid (map norm_section (cm_sections m)) (map norm_section ss'));
+    [reflexivity | | apply Permutation_map, P].
+  rewrite map_map. exact N.
+Qed.
+
+Theorem norm_module_symbols_order : forall m ys', NoDup (map cy_uuid (cm_symbols m)) -> Permutation (cm_symbols m) ys' ->
+  norm_module {| cm_uuid := cm_uuid m; cm_name := cm_name m; cm_binary_path := cm_binary_path m; cm_isa := cm_isa m;
+                 cm_file_format := cm_file_format m; cm_byte_order := cm_byte_order m;
+                 cm_preferred_addr := cm_preferred_addr m; cm_rebase_delta := cm_rebase_delta m; cm_entry := cm_entry m;
+                 cm_proxies := cm_proxies m; cm_sections := cm_sections m; cm_symbols := ys'; cm_aux := cm_aux m |}
+  = norm_module m.
+Proof.
+  intros m ys' N P. unfold norm_module.
+  cbn [cm_uuid cm_name cm_binary_path cm_isa cm_file_format cm_byte_order cm_preferred_addr cm_rebase_delta cm_entry
+       cm_proxies cm_sections cm_symbols cm_aux].
+  rewrite (sort_by_key_canonical cy_uuid (cm_symbols m) ys' N P). reflexivity.
+Qed.
+
+Theorem norm_section_bis_order : forall s bs', NoDup (map ci_uuid (cs_bis s)) -> Permutation (cs_bis s) bs' ->
+  norm_section {| cs_uuid := cs_uuid s; cs_name := cs_name s; cs_flags := cs_flags s; cs_bis := bs' |} = norm_section s.
+Proof.
+  intros s bs' N P. unfold norm_section. cbn [cs_uuid cs_name cs_flags cs_bis].
+  rewrite (sort_by_key_canonical ci_uuid (map norm_bi (cs_bis s)) (map norm_bi bs'));
+    [reflexivity | | apply Permutation_map, P].
+  rewrite map_map. exact N.
+Qed.
+
+Theorem norm_bi_blocks_order : forall b ks', NoDup (map cb_uuid (ci_blocks b)) -> Permutation (ci_blocks b) ks' ->
+  norm_bi {| ci_uuid := ci_uuid b; ci_addr := ci_addr b; ci_size := ci_size b; ci_contents := ci_contents b;
+             ci_blocks := ks'; ci_symx := ci_symx b |} = norm_bi b.
+Proof.
+  intros b ks' N P. unfold norm_bi. cbn [ci_uuid ci_addr ci_size ci_contents ci_blocks ci_symx].
+  rewrite (sort_by_key_canonical cb_uuid (ci_blocks b) ks' N P). reflexivity.
+Qed.
+
+Theorem norm_bi_symx_order : forall b xs', NoDup (map fst (ci_symx b)) -> Permutation (ci_symx b) xs' ->
+  norm_bi {| ci_uuid := ci_uuid b; ci_addr := ci_addr b; ci_size := ci_size b; ci_contents := ci_contents b;
+             ci_blocks := ci_blocks b; ci_symx := xs' |} = norm_bi b.
+Proof.
+  intros b xs' N P. unfold norm_bi. cbn [ci_uuid ci_addr ci_size ci_contents ci_blocks ci_symx].
+  rewrite (sort_by_key_canonical fst (map norm_expr (ci_symx b)) (map norm_expr xs'));
+    [reflexivity | | apply Permutation_map, P].
+  rewrite map_map. exact N.
+Qed.
+
+(* flags / attributes: any two lists denoting the same set have the same normal form *)
+Theorem norm_set_canonical : forall l1 l2, (forall x, In x l1 <-> In x l2) -> norm_set l1 = norm_set l2.
+Proof. intros l1 l2 H. apply set_eqb_norm, set_eqb_iff, H. Qed.
+
+Print Assumptions wf_deq_ok.
+Print Assumptions deep_eq_iff.
+Print Assumptions deep_eq_refl.
+Print Assumptions deep_eq_sym.
+Print Assumptions deep_eq_order_insensitive.
+Print Assumptions deep_eq_single_field.
+Print Assumptions aux_values_ignored.
+Print Assumptions deep_eq_iff_refuted_without_dm_clause.
+Print Assumptions deep_eq_iff_refuted_without_aux_clause.
+Print Assumptions norm_modules_order.
+Print Assumptions norm_bi_symx_order.
